@@ -11,6 +11,9 @@ CONSTANTS
   Sym = FALSE
   NCallers = 4
   Removal = "skip"
+  MaxTwice = 0
+  SetRace = "unlocked"
+  Pick = 0
   Emit = "none"
 CONSTRAINT HighWater
 POSTCONDITION Accepted
